@@ -87,6 +87,12 @@ func Nilness(v ssa.Value, f NilFacts) (bool, bool) {
 			if cal := x.Call.StaticCallee(); cal != nil && x.Call.Signature().Results().Len() == 1 && inModule(cal) && allocatingCtor(cal, 0) {
 				return true, false
 			}
+			// standard library contract: errors.New and fmt.Errorf never return nil
+			if cal := x.Call.StaticCallee(); cal != nil && cal.Pkg != nil {
+				if pp := cal.Pkg.Pkg.Path(); (pp == "errors" && cal.Name() == "New") || (pp == "fmt" && cal.Name() == "Errorf") {
+					return true, false
+				}
+			}
 			return false, false
 		case *ssa.UnOp:
 			if x.Op == token.MUL {
@@ -118,7 +124,12 @@ func isNillable(t types.Type) bool {
 // trackableCell: a local Alloc all of whose referrers are loads, stores to it, or captures by
 // closures (which we assume only run deferred / do not write it synchronously; writes by
 // closures are accounted for by cellWrittenByClosure).
-func trackableCell(a *ssa.Alloc) bool {
+func trackableCell(a *ssa.Alloc) bool { return trackableCellMode(a, false) }
+
+// trackableCellMode: with calledClosuresMayWrite, a function literal that is only ever called
+// directly (never stored, passed on, deferred or started) may write the cell: the interprocedural
+// walk enters it at every call.
+func trackableCellMode(a *ssa.Alloc, calledClosuresMayWrite bool) bool {
 	if a.Referrers() == nil {
 		return false
 	}
@@ -138,11 +149,33 @@ func trackableCell(a *ssa.Alloc) bool {
 					if fv.Referrers() != nil {
 						for _, fr := range *fv.Referrers() {
 							if st, ok := fr.(*ssa.Store); ok && st.Addr == ssa.Value(fv) {
+								if calledClosuresMayWrite && onlyCalledDirectly(x) {
+									continue
+								}
 								return false
 							}
 						}
 					}
 				}
+			}
+		case *ssa.DebugRef:
+		default:
+			return false
+		}
+	}
+	return true
+}
+
+// onlyCalledDirectly: every use of the function literal is a plain call of it.
+func onlyCalledDirectly(mc *ssa.MakeClosure) bool {
+	if mc.Referrers() == nil {
+		return false
+	}
+	for _, r := range *mc.Referrers() {
+		switch x := r.(type) {
+		case *ssa.Call:
+			if x.Call.Value != ssa.Value(mc) {
+				return false
 			}
 		case *ssa.DebugRef:
 		default:
@@ -182,6 +215,131 @@ func NilWalkAfterWith(fn *ssa.Function, after ssa.Instruction, facts NilFacts, c
 
 var walkInitFacts NilFacts
 
+// fieldCell is the fact / last-stored key for "field #idx of the local struct variable X".
+type fieldCell struct {
+	ssa.Value
+	idx int
+}
+
+func (c fieldCell) Name() string { return c.Value.Name() + "." + string(rune('a'+c.idx)) }
+
+// walkRel switches on what relational summaries need (off for all other walks, whose cost it would
+// raise): stores into fields of local struct variables are tracked per path, the incoming value
+// selected at the phis in trackPhi is remembered per path, and the outcome of a branch on a
+// boolean phi is remembered as a fact. CurLast exposes the per-path "last stored" map to onInstr.
+type walkRel struct {
+	trackPhi map[*ssa.Phi]bool
+}
+
+var walkRelMode *walkRel
+
+// walkDescend switches on interprocedural walking: a static call of a module function with a body
+// is entered (at most MaxDepth frames, no recursion), its returns continue after the call with the
+// nilness / truth of the returned values transferred to the call's results. Callbacks see the
+// instructions of the entered functions too (except their returns, which are not exits), with
+// ParamSubst mapping parameters and captured variables to the caller's values.
+type walkDescendMode struct {
+	MaxDepth int
+	Skip     func(callee *ssa.Function) bool
+}
+
+var walkDescend *walkDescendMode
+
+type walkFrame struct {
+	call  *ssa.Call
+	blk   *ssa.BasicBlock
+	next  int
+	subst map[ssa.Value]ssa.Value
+}
+
+// retOf is the fact key for "result #idx of this call, as returned on the current path".
+type retOf struct {
+	ssa.Value
+	idx int
+}
+
+func (r retOf) Name() string { return r.Value.Name() + "#" + string(rune('0'+r.idx)) }
+
+// WalkDepth: number of frames entered at the instruction currently shown to a callback.
+var WalkDepth int
+
+func factOwner(k ssa.Value) *ssa.Function {
+	for i := 0; i < 4; i++ {
+		switch x := k.(type) {
+		case contentOf:
+			k = x.Value
+		case boolOf:
+			k = x.Value
+		case fieldCell:
+			k = x.Value
+		case retOf:
+			k = x.Value
+		default:
+			if in, ok := k.(ssa.Instruction); ok {
+				return in.Parent()
+			}
+			if p, ok := k.(*ssa.Parameter); ok {
+				return p.Parent()
+			}
+			if fv, ok := k.(*ssa.FreeVar); ok {
+				return fv.Parent()
+			}
+			return nil
+		}
+	}
+	return nil
+}
+
+// CurLast: during onInstr, the value most recently stored into each tracked cell / selected at each
+// tracked phi on the current path.
+var CurLast map[ssa.Value]ssa.Value
+
+// trackableStruct: a local struct Alloc used only through loads of the whole, stores of the whole,
+// and field addresses that are themselves only loaded or stored to.
+func trackableStruct(a *ssa.Alloc) bool {
+	if a.Referrers() == nil {
+		return false
+	}
+	if _, ok := a.Type().(*types.Pointer).Elem().Underlying().(*types.Struct); !ok {
+		return false
+	}
+	for _, r := range *a.Referrers() {
+		switch x := r.(type) {
+		case *ssa.Store:
+			if x.Addr != ssa.Value(a) {
+				return false
+			}
+		case *ssa.UnOp:
+			if x.Op != token.MUL {
+				return false
+			}
+		case *ssa.DebugRef:
+		case *ssa.FieldAddr:
+			if x.Referrers() == nil {
+				continue
+			}
+			for _, fr := range *x.Referrers() {
+				switch y := fr.(type) {
+				case *ssa.Store:
+					if y.Addr != ssa.Value(x) {
+						return false
+					}
+				case *ssa.UnOp:
+					if y.Op != token.MUL {
+						return false
+					}
+				case *ssa.DebugRef:
+				default:
+					return false
+				}
+			}
+		default:
+			return false
+		}
+	}
+	return true
+}
+
 // NilWalkEntryWith walks from the entry with the given facts assumed (for instance about parameters).
 func NilWalkEntryWith(fn *ssa.Function, facts NilFacts, cut map[Edge]bool, stopAt func(ssa.Instruction) bool, onInstr func(ssa.Instruction, NilFacts)) NilWalkResult {
 	walkInitFacts = facts
@@ -200,6 +358,7 @@ func nilWalk(fn *ssa.Function, from map[Edge]bool, after ssa.Instruction, cut ma
 		f     NilFacts
 		start int
 		last  map[ssa.Value]ssa.Value // per path: value most recently stored into each tracked cell
+		stack []walkFrame
 	}
 	cloneLast := func(m map[ssa.Value]ssa.Value) map[ssa.Value]ssa.Value {
 		n := make(map[ssa.Value]ssa.Value, len(m))
@@ -209,7 +368,19 @@ func nilWalk(fn *ssa.Function, from map[Edge]bool, after ssa.Instruction, cut ma
 		return n
 	}
 	cellOK := map[*ssa.Alloc]bool{}
+	var curSubst map[ssa.Value]ssa.Value
 	isCell := func(v ssa.Value) (ssa.Value, bool) {
+		if fv, ok := v.(*ssa.FreeVar); ok && curSubst != nil {
+			// a captured variable inside an entered function literal: the enclosing function's cell
+			for i := 0; i < 3; i++ {
+				w, ok := curSubst[v]
+				if !ok {
+					break
+				}
+				v = w
+			}
+			_ = fv
+		}
 		if g, ok := v.(*ssa.Global); ok {
 			// package-level variable: tracked between two reads inside one function (assumed
 			// not to be reassigned concurrently: configuration set once at start-up)
@@ -221,10 +392,19 @@ func nilWalk(fn *ssa.Function, from map[Edge]bool, after ssa.Instruction, cut ma
 		}
 		t, seen := cellOK[a]
 		if !seen {
-			t = trackableCell(a)
+			t = trackableCellMode(a, walkDescend != nil)
 			cellOK[a] = t
 		}
 		return a, t
+	}
+	structOK := map[*ssa.Alloc]bool{}
+	isStructCell := func(a *ssa.Alloc) bool {
+		t, seen := structOK[a]
+		if !seen {
+			t = trackableStruct(a)
+			structOK[a] = t
+		}
+		return t
 	}
 	seen := map[string]bool{}
 	ids := map[ssa.Value]uint32{}
@@ -237,7 +417,7 @@ func nilWalk(fn *ssa.Function, from map[Edge]bool, after ssa.Instruction, cut ma
 				for k, v := range walkInitFacts {
 					f0[k] = v
 				}
-				work = append(work, item{b, nil, f0, i + 1, map[ssa.Value]ssa.Value{}})
+				work = append(work, item{b, nil, f0, i + 1, map[ssa.Value]ssa.Value{}, nil})
 			}
 		}
 	} else if from == nil {
@@ -248,7 +428,7 @@ func nilWalk(fn *ssa.Function, from map[Edge]bool, after ssa.Instruction, cut ma
 		for k, v := range walkInitFacts {
 			f0[k] = v
 		}
-		work = append(work, item{fn.Blocks[0], nil, f0, 0, map[ssa.Value]ssa.Value{}})
+		work = append(work, item{fn.Blocks[0], nil, f0, 0, map[ssa.Value]ssa.Value{}, nil})
 	} else {
 		for e := range from {
 			if cut[e] {
@@ -257,7 +437,7 @@ func nilWalk(fn *ssa.Function, from map[Edge]bool, after ssa.Instruction, cut ma
 			f := NilFacts{}
 			// facts implied by the start edge itself
 			applyEdgeFact(e, f, isCell, nil)
-			work = append(work, item{e.From.Succs[e.Idx], e.From, f, 0, map[ssa.Value]ssa.Value{}})
+			work = append(work, item{e.From.Succs[e.Idx], e.From, f, 0, map[ssa.Value]ssa.Value{}, nil})
 		}
 	}
 	maxStates := MaxWalkStates
@@ -266,6 +446,10 @@ func nilWalk(fn *ssa.Function, from map[Edge]bool, after ssa.Instruction, cut ma
 		work = work[:len(work)-1]
 		f := it.f
 		lastStored := it.last
+		curSubst = nil
+		if len(it.stack) > 0 {
+			curSubst = it.stack[len(it.stack)-1].subst
+		}
 		// phis
 		if it.pred != nil {
 			idx := -1
@@ -334,9 +518,26 @@ func nilWalk(fn *ssa.Function, from map[Edge]bool, after ssa.Instruction, cut ma
 						delete(f, boolOf{x.p})
 					}
 				}
+				if walkRelMode != nil {
+					for _, in := range it.b.Instrs {
+						phi, ok := in.(*ssa.Phi)
+						if !ok {
+							break
+						}
+						if walkRelMode.trackPhi[phi] {
+							lastStored[phi] = phi.Edges[idx]
+						}
+					}
+				}
 			}
 		}
 		key := stateKey(ids, it.b.Index, f, lastStored, it.start > 0)
+		if walkDescend != nil {
+			key += string(rune(it.start)) + "|" + it.b.Parent().Name()
+			for _, fr := range it.stack {
+				key += "/" + fr.call.Name() + "@" + fr.call.Parent().Name()
+			}
+		}
 		if seen[key] {
 			continue
 		}
@@ -361,12 +562,110 @@ func nilWalk(fn *ssa.Function, from map[Edge]bool, after ssa.Instruction, cut ma
 			if v, ok := in.(ssa.Value); ok {
 				delete(f, v) // re-definition invalidates a stale fact (loops)
 			}
-			if onInstr != nil {
-				onInstr(in, f)
+			if ex, ok := in.(*ssa.Extract); ok && walkDescend != nil {
+				// results of a call that was entered: what the path taken inside returned
+				if n, ok := f[retOf{ex.Tuple, ex.Index}]; ok {
+					f[ex] = n
+				}
+				if bv, ok := f[boolOf{retOf{ex.Tuple, ex.Index}}]; ok {
+					f[boolOf{ex}] = bv
+				}
 			}
-			if stopAt != nil && stopAt(in) {
-				stopped = true
-				break
+			nested := len(it.stack) > 0
+			if _, isRet := in.(*ssa.Return); isRet && nested {
+				// not an exit of the function under analysis
+			} else {
+				var savedSubst map[ssa.Value]ssa.Value
+				if nested {
+					savedSubst = ParamSubst
+					ParamSubst = it.stack[len(it.stack)-1].subst
+					WalkDepth = len(it.stack)
+				}
+				if onInstr != nil {
+					CurLast = lastStored
+					onInstr(in, f)
+					CurLast = nil
+				}
+				st := stopAt != nil && stopAt(in)
+				if nested {
+					ParamSubst = savedSubst
+					WalkDepth = 0
+				}
+				if st {
+					stopped = true
+					break
+				}
+			}
+			if walkDescend != nil {
+				if call, ok := in.(*ssa.Call); ok {
+					if g := descendInto(call, it.stack); g != nil {
+						nf := f.clone()
+						sub := map[ssa.Value]ssa.Value{}
+						if nested {
+							for k, v := range it.stack[len(it.stack)-1].subst {
+								sub[k] = v
+							}
+						}
+						for i, p := range g.Params {
+							if i < len(call.Call.Args) {
+								a := call.Call.Args[i]
+								sub[p] = a
+								if kn, n := Nilness(a, f); kn {
+									nf[p] = n
+								}
+								if k, ok := a.(*ssa.Const); ok && k.Value != nil && k.Value.Kind() == constant.Bool {
+									nf[boolOf{p}] = constant.BoolVal(k.Value)
+								} else if bv, ok := f[boolOf{a}]; ok {
+									nf[boolOf{p}] = bv
+								}
+							}
+						}
+						if mc, ok := call.Call.Value.(*ssa.MakeClosure); ok {
+							for i, fv := range g.FreeVars {
+								if i < len(mc.Bindings) {
+									sub[fv] = mc.Bindings[i]
+								}
+							}
+						}
+						ns := append(append([]walkFrame{}, it.stack...), walkFrame{call, it.b, ii + 1, sub})
+						work = append(work, item{g.Blocks[0], nil, nf, 0, cloneLast(lastStored), ns})
+						stopped = true // the rest of this block continues when the callee returns
+						break
+					}
+				}
+			}
+			if walkRelMode != nil {
+				switch x := in.(type) {
+				case *ssa.Alloc:
+					// (re-)executed allocation: a fresh zero value
+					for k := range lastStored {
+						if fc, ok := k.(fieldCell); ok && fc.Value == ssa.Value(x) {
+							delete(lastStored, k)
+							delete(f, contentOf{k})
+						}
+					}
+					delete(lastStored, x)
+				case *ssa.Store:
+					if fa, ok := x.Addr.(*ssa.FieldAddr); ok {
+						if a, ok := fa.X.(*ssa.Alloc); ok && isStructCell(a) {
+							k := fieldCell{a, fa.Field}
+							lastStored[k] = x.Val
+							if kn, n := Nilness(x.Val, f); kn {
+								f[contentOf{k}] = n
+							} else {
+								delete(f, contentOf{k})
+							}
+						}
+					} else if a, ok := x.Addr.(*ssa.Alloc); ok && isStructCell(a) {
+						for k := range lastStored {
+							if fc, ok := k.(fieldCell); ok && fc.Value == ssa.Value(a) {
+								delete(lastStored, k)
+								delete(f, contentOf{k})
+							}
+						}
+						lastStored[a] = x.Val
+					}
+				}
 			}
 			switch x := in.(type) {
 			case *ssa.Store:
@@ -392,6 +691,55 @@ func nilWalk(fn *ssa.Function, from map[Edge]bool, after ssa.Instruction, cut ma
 			continue
 		}
 		last := it.b.Instrs[len(it.b.Instrs)-1]
+		if ret, ok := last.(*ssa.Return); ok && len(it.stack) > 0 {
+			fr := it.stack[len(it.stack)-1]
+			g := f.clone()
+			nl := cloneLast(lastStored)
+			callee := it.b.Parent()
+			type rf struct {
+				known, n   bool
+				bknown, bv bool
+			}
+			rfs := make([]rf, len(ret.Results))
+			for i, rv := range ret.Results {
+				kn, n := Nilness(rv, f)
+				rfs[i].known, rfs[i].n = kn, n
+				if k, ok := rv.(*ssa.Const); ok && k.Value != nil && k.Value.Kind() == constant.Bool {
+					rfs[i].bknown, rfs[i].bv = true, constant.BoolVal(k.Value)
+				} else if bv, ok := f[boolOf{rv}]; ok {
+					rfs[i].bknown, rfs[i].bv = true, bv
+				}
+			}
+			// facts about the callee's own values are of no use after it returned
+			for k := range g {
+				if factOwner(k) == callee {
+					delete(g, k)
+				}
+			}
+			for k := range nl {
+				if factOwner(k) == callee {
+					delete(nl, k)
+				}
+			}
+			for i, x := range rfs {
+				var key ssa.Value = fr.call
+				if len(ret.Results) > 1 {
+					key = retOf{fr.call, i}
+				}
+				if x.known {
+					g[key] = x.n
+				} else {
+					delete(g, key)
+				}
+				if x.bknown {
+					g[boolOf{key}] = x.bv
+				} else {
+					delete(g, boolOf{key})
+				}
+			}
+			work = append(work, item{fr.blk, nil, g, fr.next, nl, it.stack[:len(it.stack)-1]})
+			continue
+		}
 		if ifi, ok := last.(*ssa.If); ok {
 			a := NormCond(ifi.Cond)
 			if a.Op == token.ILLEGAL {
@@ -402,7 +750,19 @@ func nilWalk(fn *ssa.Function, from map[Edge]bool, after ssa.Instruction, cut ma
 						idx = 0
 					}
 					if !cut[Edge{it.b, idx}] {
-						work = append(work, item{it.b.Succs[idx], it.b, f.clone(), 0, cloneLast(lastStored)})
+						work = append(work, item{it.b.Succs[idx], it.b, f.clone(), 0, cloneLast(lastStored), it.stack})
+					}
+					continue
+				}
+				if _, isPhi := a.Val.(*ssa.Phi); isPhi && walkRelMode != nil {
+					for idx := 0; idx < 2; idx++ {
+						if cut[Edge{it.b, idx}] {
+							continue
+						}
+						g := f.clone()
+						// cond true on edge 0: value == !Negated
+						g[boolOf{a.Val}] = (idx == 0) != a.Negated
+						work = append(work, item{it.b.Succs[idx], it.b, g, 0, cloneLast(lastStored), it.stack})
 					}
 					continue
 				}
@@ -422,7 +782,7 @@ func nilWalk(fn *ssa.Function, from map[Edge]bool, after ssa.Instruction, cut ma
 						idx = 1 - eqIdx
 					}
 					if !cut[Edge{it.b, idx}] {
-						work = append(work, item{it.b.Succs[idx], it.b, f.clone(), 0, cloneLast(lastStored)})
+						work = append(work, item{it.b.Succs[idx], it.b, f.clone(), 0, cloneLast(lastStored), it.stack})
 					}
 					continue
 				}
@@ -432,7 +792,7 @@ func nilWalk(fn *ssa.Function, from map[Edge]bool, after ssa.Instruction, cut ma
 					}
 					g := f.clone()
 					applyEdgeFact(Edge{it.b, idx}, g, isCell, lastStored)
-					work = append(work, item{it.b.Succs[idx], it.b, g, 0, cloneLast(lastStored)})
+					work = append(work, item{it.b.Succs[idx], it.b, g, 0, cloneLast(lastStored), it.stack})
 				}
 				continue
 			}
@@ -441,10 +801,30 @@ func nilWalk(fn *ssa.Function, from map[Edge]bool, after ssa.Instruction, cut ma
 			if cut[Edge{it.b, idx}] {
 				continue
 			}
-			work = append(work, item{s, it.b, f.clone(), 0, cloneLast(lastStored)})
+			work = append(work, item{s, it.b, f.clone(), 0, cloneLast(lastStored), it.stack})
 		}
 	}
 	return res
+}
+
+// descendInto: the function entered at this call in interprocedural mode, or nil.
+func descendInto(call *ssa.Call, stack []walkFrame) *ssa.Function {
+	g := call.Call.StaticCallee()
+	if g == nil || len(g.Blocks) == 0 || !inModule(g) || len(stack) >= walkDescend.MaxDepth {
+		return nil
+	}
+	if g == call.Parent() {
+		return nil
+	}
+	for _, fr := range stack {
+		if fr.call.Parent() == g || fr.call.Call.StaticCallee() == g {
+			return nil
+		}
+	}
+	if walkDescend.Skip != nil && walkDescend.Skip(g) {
+		return nil
+	}
+	return g
 }
 
 // applyEdgeFact records what taking edge e (of an If on a nil test) implies.
@@ -483,6 +863,12 @@ func applyEdgeFact(e Edge, f NilFacts, isCell func(ssa.Value) (ssa.Value, bool),
 // GuardedByNil is GuardedBy with nil-test path sensitivity: sink must be unreachable once the
 // pass edges of the guards are cut, where infeasible combinations of nil tests are pruned.
 func GuardedByNil(fn *ssa.Function, sink ssa.Instruction, guards ...Guard) (bool, []int) {
+	return liftGuarded(fn, sink, 0, func(f *ssa.Function, at ssa.Instruction) (bool, []int) {
+		return guardedByNil1(f, at, guards...)
+	})
+}
+
+func guardedByNil1(fn *ssa.Function, sink ssa.Instruction, guards ...Guard) (bool, []int) {
 	cut, counts := PassEdges(fn, guards...)
 	res := NilWalk(fn, nil, cut, nil, nil)
 	if res.Overflow {
@@ -493,6 +879,12 @@ func GuardedByNil(fn *ssa.Function, sink ssa.Instruction, guards ...Guard) (bool
 
 // GuardedByNilCorr combines the nil-fact walk with the correlation pruning of GuardedByCorr.
 func GuardedByNilCorr(fn *ssa.Function, sink ssa.Instruction, guards ...Guard) (bool, []int) {
+	return liftGuarded(fn, sink, 0, func(f *ssa.Function, at ssa.Instruction) (bool, []int) {
+		return guardedByNilCorr1(f, at, guards...)
+	})
+}
+
+func guardedByNilCorr1(fn *ssa.Function, sink ssa.Instruction, guards ...Guard) (bool, []int) {
 	saved, savedP := Assumed, AssumedPaths
 	Assumed = DominatingConds(fn, sink)
 	AssumedPaths = DominatingPaths(fn, sink)
@@ -544,4 +936,73 @@ func stateKey(ids map[ssa.Value]uint32, block int, f NilFacts, last map[ssa.Valu
 		buf = append(buf, byte(x), byte(x>>8), byte(x>>16), byte(x>>24), byte(x>>32), byte(x>>40), byte(x>>48), byte(x>>56))
 	}
 	return string(buf)
+}
+
+// WalkDeep runs f with the interprocedural mode of the walker switched on.
+func WalkDeep(maxDepth int, skip func(*ssa.Function) bool, f func()) {
+	saved := walkDescend
+	walkDescend = &walkDescendMode{MaxDepth: maxDepth, Skip: skip}
+	defer func() { walkDescend = saved }()
+	f()
+}
+
+// PathAvoidingDeep is PathAvoiding / PathFromEdgeAvoiding on the interprocedural, nil-test
+// sensitive walker: static calls of module functions and directly called function literals are
+// entered (two levels); the returns of entered functions are not targets. overflow: the state
+// budget was exhausted (no answer).
+func PathAvoidingDeep(fn *ssa.Function, from ssa.Instruction, edges map[Edge]bool, target, avoid func(ssa.Instruction) bool, cut map[Edge]bool) (found bool, where ssa.Instruction, overflow bool) {
+	savedMax := MaxWalkStates
+	if MaxWalkStates > 30000 {
+		MaxWalkStates = 30000
+	}
+	defer func() { MaxWalkStates = savedMax }()
+	WalkDeep(2, nil, func() {
+		on := func(in ssa.Instruction, f NilFacts) {
+			if !found && target(in) {
+				found, where = true, in
+			}
+		}
+		stop := func(in ssa.Instruction) bool {
+			if found {
+				return true
+			}
+			if target(in) {
+				return true
+			}
+			return avoid != nil && avoid(in)
+		}
+		var res NilWalkResult
+		switch {
+		case from != nil:
+			res = nilWalk(fn, nil, from, cut, stop, on)
+		case edges != nil:
+			res = nilWalk(fn, edges, nil, cut, stop, on)
+		default:
+			res = nilWalk(fn, nil, nil, cut, stop, on)
+		}
+		overflow = res.Overflow
+	})
+	return
+}
+
+// PathAvoidingX: the interprocedural, nil-sensitive search; the plain CFG search only when the
+// state budget is exhausted.
+func PathAvoidingX(fn *ssa.Function, from ssa.Instruction, target, avoid func(ssa.Instruction) bool, cut map[Edge]bool) (bool, ssa.Instruction) {
+	f2, w2, over := PathAvoidingDeep(fn, from, nil, target, avoid, cut)
+	if over {
+		return PathAvoiding(fn, from, target, avoid, cut)
+	}
+	return f2, w2
+}
+
+// PathFromEdgeAvoidingX is the edge-started variant of PathAvoidingX.
+func PathFromEdgeAvoidingX(fn *ssa.Function, edges map[Edge]bool, target, avoid func(ssa.Instruction) bool, cut map[Edge]bool) (bool, ssa.Instruction) {
+	if len(edges) == 0 {
+		return PathFromEdgeAvoiding(fn, edges, target, avoid, cut)
+	}
+	f2, w2, over := PathAvoidingDeep(fn, nil, edges, target, avoid, cut)
+	if over {
+		return PathFromEdgeAvoiding(fn, edges, target, avoid, cut)
+	}
+	return f2, w2
 }
